@@ -86,7 +86,7 @@ class RuleResult:
         line = getattr(node, "lineno", 0) if node is not None else 0
         if fn is not None:
             file = fn.relpath
-            qualname = fn.qualname
+            qualname = getattr(fn, "role_qualname", None) or fn.qualname
             if not line:
                 line = fn.lineno
         if construct is None:
